@@ -163,6 +163,17 @@ func S6(maxPacket, ops, digests, dups, holds int, membership bool) *Scenario {
 		Joins: [][2]int{{2, 1}}, MaxJoins: 1,
 		Oracles: OracleSet{C04: true},
 	}
+	if maxPacket < 0 {
+		// S6x: endpoint ids of different lengths, so that entries have different
+		// sizes (a delta that skips an entry that does not fit and carries a
+		// later, smaller one is no longer a version prefix)
+		sc.Name = "S6x-routing-mixed-sizes"
+		sc.MaxPacket = -maxPacket
+		sc.Ops[0] = []Event{
+			{Kind: "addep", K: "e1"}, {Kind: "addep", K: "a-rather-long-endpoint-identifier"}, {Kind: "addep", K: "e2"},
+			{Kind: "rmep", K: "e1"},
+		}
+	}
 	if membership {
 		sc.Name = "S6m-routing-membership"
 		sc.Ops[0] = append(sc.Ops[0], Event{Kind: "leave"})
